@@ -151,3 +151,25 @@ def gen_clock(rng: Any, modes: Tuple[str, ...] = ("tied",)) -> dict:
         c["jumps"] = [[rng.randrange(0, 30), rng.choice([-3600, -2, -1, 1, 2, 60, 86400])]
                       for _ in range(rng.randrange(1, 5))]
     return c
+
+
+def gen_structured_passphrase(rng: Any) -> bytes:
+    """Pass-phrases that LOOK like something else (a hex key, a number, padded text): they are pass-phrases all the same and
+    go through the RFC 3414 A.2 derivation like any other octet string."""
+    hexd = "0123456789abcdef"
+    k = rng.randrange(0, 8)
+    if k == 0:
+        return ("0x" + "".join(rng.choice(hexd) for _ in range(32))).encode()
+    if k == 1:
+        return ("0x" + "".join(rng.choice(hexd) for _ in range(40))).encode()
+    if k == 2:
+        return ("0X" + "".join(rng.choice(hexd.upper()) for _ in range(rng.choice([32, 40, 64])))).encode()
+    if k == 3:
+        return "".join(rng.choice(hexd) for _ in range(rng.choice([32, 40]))).encode()
+    if k == 4:
+        return "".join(rng.choice("0123456789") for _ in range(rng.choice([8, 16, 20]))).encode()
+    if k == 5:
+        return b"  padded pass-phrase  "
+    if k == 6:
+        return ("md5:" + "".join(rng.choice(hexd) for _ in range(32))).encode()
+    return b"\x00" * rng.choice([8, 16, 20])
